@@ -4,6 +4,7 @@ import Qhttp.Model.Http
 import Qhttp.Props.C02
 import Qhttp.Lemmas.ProxyTarget
 import Qhttp.Lemmas.ProxyHead
+import Qhttp.Lemmas.ProxyHolds
 /-
   C12 — the proxy forwards the client's request upstream unaltered in meaning.
 -/
@@ -279,5 +280,314 @@ theorem empty_name_forwarded :
   decide +kernel
 
 end examples
+
+/-! ### 4./5. the relay invariant and the executable predicate on whole runs
+
+  The proofs live in `Qhttp/Lemmas/ProxySock.lean` (the socket under the proxy's application, on
+  top of the C02 invariant `RInv`), `ProxyRelay.lean` (the relay part of the invariant, one
+  lemma per phase of `sockEvent`/`turn`), `ProxyRun.lean` (induction over the event list) and
+  `ProxyHolds.lean` (the header clauses of `holds`). -/
+
+/-- scenario shape of the relay theorems: the Socket is created first, then client segments and
+    event-loop turns in any order; the upstream server accepts the connection and only listens -/
+def relayShape : List PEv → Bool
+  | .sock .new :: rest => rest.all fun e => match e with | .sock (.feed _) => true | .turn => true | _ => false
+  | _ => false
+
+theorem relayPEv_of_shape {evs : List PEv} (h : relayShape evs = true) : ∀ e ∈ evs, relayPEv e = true := by
+  unfold relayShape at h
+  split at h
+  · rename_i rest
+    intro e he
+    rcases List.mem_cons.mp he with rfl | he
+    · rfl
+    · have := List.all_eq_true.mp h e he
+      revert this
+      cases e with
+      | sock ev => cases ev <;> simp [relayPEv]
+      | turn => simp [relayPEv]
+      | up b => simp
+      | upClose => simp
+  · cases h
+
+theorem shape_cases {evs : List PEv} (h : relayShape evs = true) :
+    ∃ rest, evs = .sock .new :: rest ∧
+      rest.all (fun e => match e with | .sock (.feed _) => true | .turn => true | _ => false) = true := by
+  unfold relayShape at h
+  split at h
+  · exact ⟨_, rfl, h⟩
+  · cases h
+
+theorem clientStream_eq (evs : List PEv) : clientStream evs = fedP evs := by
+  unfold clientStream fedP Scenario.fed
+  rw [List.flatMap_map]
+  congr 1
+  funext e
+  cases e with
+  | sock ev => cases ev <;> rfl
+  | turn => rfl
+  | up b => rfl
+  | upClose => rfl
+
+/-- a settled run of the relay shape ends with a turn -/
+theorem ends_with_turn {evs : List PEv} (hs : relayShape evs = true) (h : settled evs = true) :
+    ∃ pre, evs = pre ++ [PEv.turn] := by
+  unfold settled at h
+  simp only [Bool.and_eq_true, decide_eq_true_eq] at h
+  have h1 := h.1
+  -- the last event
+  cases hr : evs.reverse with
+  | nil =>
+    rw [hr] at h1; simp at h1
+  | cons x r =>
+    have hevs : evs = r.reverse ++ [x] := by
+      have := congrArg List.reverse hr
+      simpa using this
+    rw [hr, List.takeWhile_cons] at h1
+    have hx : relayPEv x = true := relayPEv_of_shape hs x (by rw [hevs]; simp)
+    cases x with
+    | up b => simp [relayPEv] at hx
+    | upClose => simp [relayPEv] at hx
+    | turn => exact ⟨r.reverse, hevs⟩
+    | sock ev =>
+      cases ev with
+      | feed seg => simp at h1
+      | new =>
+        -- `new` stands first only: the run is `[new]`, which has no turn
+        obtain ⟨rest, heq, hall⟩ := shape_cases hs
+        cases hrest : rest.reverse with
+        | nil =>
+          have : rest = [] := by simpa using hrest
+          subst this
+          rw [heq] at hr
+          simp at hr
+          obtain ⟨_, rfl⟩ := hr
+          simp at h1
+        | cons y r' =>
+          have hrest' : rest = r'.reverse ++ [y] := by
+            have := congrArg List.reverse hrest
+            simpa using this
+          rw [heq, hrest'] at hevs
+          have : y = PEv.sock Event.new := by
+            have e1 : PEv.sock Event.new :: (r'.reverse ++ [y]) = (PEv.sock Event.new :: r'.reverse) ++ [y] := by simp
+            rw [e1] at hevs
+            have := congrArg List.getLast? hevs
+            simp only [List.getLast?_append, List.getLast?_singleton, Option.some_or] at this
+            exact Option.some.inj this
+          have hy := List.all_eq_true.mp hall y (by rw [hrest']; simp)
+          rw [this] at hy
+          simp at hy
+      | prebuf b => simp [relayPEv] at hx
+      | ack n => simp [relayPEv] at hx
+      | ackAll => simp [relayPEv] at hx
+      | peerClose => simp [relayPEv] at hx
+      | turn => simp [relayPEv] at hx
+      | api op => simp [relayPEv] at hx
+
+/-- what `C02.req` returning a request means, with the parsed head exposed -/
+theorem req_parsed {env : Env} {stream : Bytes} {r : C02.Req} (h : C02.req env stream = some r) :
+    ∃ head rh f, breakOn CRLF2 stream = some (head, r.rest) ∧ C01.expect env head = some f ∧
+      Parsed env head r.n rh ∧ f.method = rh.method ∧ f.rawPath = rh.rawPath ∧ f.headers = rh.headers := by
+  unfold C02.req at h
+  split at h
+  · cases h
+  · rename_i head rest hb
+    split at h
+    · cases h
+    · rename_i f hf
+      split at h
+      · cases h
+      · rename_i hneg
+        simp only [Option.some.injEq] at h
+        subst h
+        have hf0 := hf
+        unfold C01.expect at hf
+        split at hf
+        · cases hf
+        · rename_i rh hp
+          split at hf
+          · cases hf
+          · rename_i p q hu
+            simp only [Option.some.injEq] at hf
+            subst hf
+            simp only at hneg
+            refine ⟨head, rh, _, hb, hf0, ⟨hp, ⟨p, q, hu⟩, ?_, ?_⟩, rfl, rfl, rfl⟩
+            · by_cases hc : HeaderMap.contains Sock.CONTENT_LENGTH rh.headers = true
+              · exact hc
+              · simp [hc] at hneg
+            · by_cases hc : HeaderMap.contains Sock.CONTENT_LENGTH rh.headers = true
+              · simp only [hc, if_true] at hneg ⊢
+                show toLongLong (HeaderMap.value Sock.CONTENT_LENGTH rh.headers) = _
+                omega
+              · simp [hc] at hneg
+
+/-- `holds` from its clauses (accepted request with declared length, something reached upstream) -/
+theorem holds_of_clauses (env : Env) (c : Cfg) (evs : List PEv) (obs : List Obs)
+    (head : Bytes) (f : Snap) (m : Http.Msg) (meth tgt ver : Bytes) (ent : Bytes)
+    (hc : c.refuse = false)
+    (h1 : C01.headOf (clientStream evs) = some head) (h2 : C01.expect env head = some f)
+    (h3 : (upstreamBytes obs).isEmpty = false) (h4 : Http.parse (upstreamBytes obs) = some m)
+    (r : C02.Req) (hreq : C02.req env (clientStream evs) = some r) (hent : C02.entitled r = ent)
+    (h5 : splitF [SP] (m.start.length + 1) none m.start = [meth, tgt, ver])
+    (ha : (meth == methodToString f.method && ver == lit ['H','T','T','P','/','1','.','1'] &&
+           !containsByte CR tgt && !containsByte LF tgt &&
+           (let (p, q) := match breakOn [63] tgt with | some (a, b) => (a, 63 :: b) | none => (tgt, [])
+            Fs.pctDecode p == 47 :: c.path &&
+            !containsByte SP q && Fs.pctDecode q == Fs.pctDecode (rawQuery f.rawPath))) = true)
+    (hb : f.headers.all (fun e => lower e.1 == lower XFF || lower e.1 == lower XRI ||
+                                vals e.1 m.headers == vals e.1 f.headers) = true)
+    (hx : (let combined := (m.headers.filter fun h => lower h.1 == lower XFF).flatMap
+                           (fun h => splitF [44, 32] (h.2.length + 1) none h.2)
+           combined.getLast? == some c.peerIP &&
+           (f.headers.filter fun e => lower e.1 == lower XFF).all fun e =>
+              (splitF [44, 32] (e.2.length + 1) none e.2).all fun v => combined.contains v) = true)
+    (hr : (if HeaderMap.contains XRI f.headers then vals XRI m.headers == vals XRI f.headers
+           else vals XRI m.headers == [c.peerIP]) = true)
+    (hbody : (m.body.isPrefixOf ent && (if settled evs then m.body == ent else true)) = true) :
+    holds env c evs obs = true := by
+  unfold holds
+  simp only [hc, Bool.false_eq_true, if_false, h1, h2, h3, h4, h5, hreq, hent]
+  simp only [Bool.and_eq_true] at ha hb hx hr hbody ⊢
+  exact ⟨⟨⟨⟨⟨ha, hb⟩, hx⟩, hr⟩, hbody.1⟩, hbody.2⟩
+
+theorem method_mem_of_parse {head : Bytes} {rh : Parser.ReqHead}
+    (h : Parser.parseRequestHeaders head [] = some rh) : rh.method ∈ eightCodes := by
+  obtain ⟨p0, p2, _, _, hm⟩ := (Parser.parseRequestHeaders_eq_some_iff head [] rh).mp h
+  exact code_mem_eightCodes hm
+
+/-- **C12, main theorem.** For every environment (`QUrl` oracle, error pages), every
+    configuration (routed path: any bytes; `refuse` either way), and every event list
+    `new (feed seg | turn)*` — every segmentation of the client's stream and every position of the
+    turns, in particular of the turn at which the upstream connection completes, among the body
+    segments — whose stream is an accepted request with a declared body length (`C02.req`), the
+    executable predicate the driver evaluates on traces of the real proxy holds on the model's
+    run.  Explicit hypotheses: `HdrWf` of the client's parsed header map (NOT guaranteed by the
+    library: known finding, `empty_name_forwarded`), and a peer address text without CR and ','.
+    Not covered (full statement would also quantify over them): streams whose head is incomplete
+    or rejected (`holds` then only asks that nothing reaches the upstream server) and accepted
+    heads without a declared length (`Content-Length` absent, or negative — the latter is false:
+    the socket treats the request as finished and drops later body bytes, scenario
+    `new feed:<GET /a HTTP/1.1 CRLF Content-Length: -5 CRLF CRLF> turn feed:616263 turn turn`). -/
+theorem holds_run (env : Env) (c : Cfg) (evs : List PEv) (hshape : relayShape evs = true)
+    (r : C02.Req) (hreq : C02.req env (clientStream evs) = some r)
+    (HdrWf : ∀ head f, C01.headOf (clientStream evs) = some head → C01.expect env head = some f →
+      C03L.HdrWf f.headers)
+    (hcr : CR ∉ c.peerIP) (hcomma : (44 : UInt8) ∉ c.peerIP) :
+    holds env c evs (Proxy.run env c evs).sock.log = true := by
+  by_cases hc : c.refuse = true
+  · unfold holds; simp [hc]
+  have hc' : c.refuse = false := by simpa using hc
+  obtain ⟨head, rh, f, hfin, hexp, hp, f1, f2, f3⟩ := req_parsed hreq
+  have hfin' : breakOn CRLF2 (fedP evs) = some (head, r.rest) := by rw [← clientStream_eq]; exact hfin
+  have hhead : C01.headOf (clientStream evs) = some head := by unfold C01.headOf; rw [hfin]; rfl
+  have hwf : C03L.HdrWf (reqSock rh).reqHeaders := by
+    show C03L.HdrWf rh.headers
+    rw [← f3]; exact HdrWf head f hhead hexp
+  have hm : (reqSock rh).method ∈ eightCodes := method_mem_of_parse hp.parse
+  rcases run_final env c hc' hp r.rest hfin' (relayPEv_of_shape hshape) with ⟨hu, hnt⟩ | ⟨d, hu, hpre, hfull⟩
+  · -- nothing upstream yet: the run is not settled
+    have hu' : upstreamBytes (Proxy.run env c evs).sock.log = [] := hu
+    have hns : settled evs = false := by
+      cases hs : settled evs with
+      | false => rfl
+      | true => exact absurd (ends_with_turn hshape hs) hnt
+    unfold holds
+    simp [hc', hhead, hexp, hu', hns]
+  · have hu' : upstreamBytes (Proxy.run env c evs).sock.log = upstreamHead c (reqSock rh) ++ d := hu
+    have hparse := ProxyL.head_wellformed c (reqSock rh) d hm hwf hcr
+    rw [← hu'] at hparse
+    have hne : (upstreamBytes (Proxy.run env c evs).sock.log).isEmpty = false := by
+      rw [hu']
+      cases hh : upstreamHead c (reqSock rh) with
+      | nil => exact absurd hh (upstreamHead_ne_nil c _)
+      | cons x xs => rfl
+    refine holds_of_clauses env c evs _ head f _ _ _ _ (r.rest.take r.n) hc' hhead hexp hne hparse r hreq rfl
+      (startLine_split c (reqSock rh) hm) ?_ ?_ ?_ ?_ ?_
+    · -- request line
+      have hct := clause_target c rh.rawPath
+      have e1 : (methodToString (reqSock rh).method == methodToString f.method) = true := by
+        rw [f1]; simp [reqSock]
+      have e2 : (Parser.HTTP11 == lit ['H','T','T','P','/','1','.','1']) = true := by decide
+      simp only [Bool.and_eq_true] at hct ⊢
+      rw [f2]
+      exact ⟨⟨⟨⟨e1, e2⟩, hct.1.1⟩, hct.1.2⟩, hct.2⟩
+    · have := clause_headers c rh.headers
+      rw [f3]; exact this
+    · have := clause_xff c rh.headers hcomma
+      rw [f3]; exact this
+    · have := clause_xri c rh.headers
+      rw [f3]; exact this
+    · show (d.isPrefixOf (r.rest.take r.n) && (if settled evs then d == r.rest.take r.n else true)) = true
+      rw [Bool.and_eq_true]
+      refine ⟨List.isPrefixOf_iff_prefix.mpr hpre, ?_⟩
+      split
+      · rename_i hs
+        rw [hfull (ends_with_turn hshape hs)]; simp
+      · rfl
+
+/-- **the relay invariant** (`body_in_order`), at EVERY point of EVERY run `new (feed seg | turn)*`
+    whose stream is an accepted request with a declared length — wherever the turn at which the
+    upstream connection completes falls among the body segments: what reached the upstream server
+    after the head, followed by what is in flight, followed by what is buffered, is exactly what
+    the socket has handed out so far (`Obs.reads`), and that is a prefix of the entitled body.
+    Before the request is routed nothing is relayed; the connection is never given up. -/
+theorem body_in_order (env : Env) (c : Cfg) (hc : c.refuse = false) (evs : List PEv)
+    (hshape : relayShape evs = true) (r : C02.Req) (hreq : C02.req env (clientStream evs) = some r)
+    (pre post : List PEv) (hevs : evs = pre ++ post) :
+    ∃ head rh, C01.headOf (clientStream evs) = some head ∧ Parser.parseRequestHeaders head = some rh ∧
+      (Proxy.run env c pre).conn ≠ .closed ∧
+      ((Proxy.run env c pre).conn = .none →
+        upstreamBytes (Proxy.run env c pre).sock.log = [] ∧ (Proxy.run env c pre).buf = [] ∧
+        (Proxy.run env c pre).toUp = [] ∧ Obs.reads (Proxy.run env c pre).sock.log = []) ∧
+      ((Proxy.run env c pre).conn = .connecting →
+        upstreamBytes (Proxy.run env c pre).sock.log = [] ∧ (Proxy.run env c pre).toUp = [] ∧
+        (Proxy.run env c pre).buf = Obs.reads (Proxy.run env c pre).sock.log) ∧
+      ((Proxy.run env c pre).conn = .connected →
+        (Proxy.run env c pre).buf = [] ∧
+        ∃ d, upstreamBytes (Proxy.run env c pre).sock.log =
+               upstreamHead c { method := rh.method, rawPath := rh.rawPath, reqHeaders := rh.headers } ++ d ∧
+             d ++ (Proxy.run env c pre).toUp = Obs.reads (Proxy.run env c pre).sock.log) ∧
+      Obs.reads (Proxy.run env c pre).sock.log <+: C02.entitled r := by
+  obtain ⟨head, rh, f, hfin, hexp, hp, _, _, _⟩ := req_parsed hreq
+  have hfin' : breakOn CRLF2 (fedP evs) = some (head, r.rest) := by rw [← clientStream_eq]; exact hfin
+  have hhead : C01.headOf (clientStream evs) = some head := by unfold C01.headOf; rw [hfin]; rfl
+  have hI := prun_inv env c hc hp r.rest hfin' pre post hevs
+    (fun e he => relayPEv_of_shape hshape e (by rw [hevs]; simp [he]))
+  obtain ⟨hR, _, hP, _⟩ := hI
+  have hpre : fedP pre <+: fedP evs := by rw [hevs, fedP_append]; exact List.prefix_append _ _
+  refine ⟨head, rh, hhead, hp.parse, hP.notClosed, fun h => ?_, fun h => ?_, fun h => ?_,
+    C02.RInv.reads_prefix hR hfin' hpre⟩
+  · obtain ⟨a, b, _, d⟩ := hP.none_ h
+    exact ⟨d, a, b, rinv_reads_nil hR (hP.connNone.mp h)⟩
+  · obtain ⟨a, _, b2, b3⟩ := hP.connecting h
+    exact ⟨b2, a, b3⟩
+  · obtain ⟨a, _, d, e1, e2⟩ := hP.connected h
+    exact ⟨a, d, e1, e2⟩
+
+/-! ### non-vacuity of the run theorems: a POST with a 3-byte body whose head, blank line and body
+    are cut across three segments, the connection completing after the first body byte -/
+
+section run_examples
+
+def envEx : Env := { url := fun raw => some (raw, []), errPage := fun _ _ => [] }
+/-- `POST /a?q HTTP/1.1 CRLF Content-Length: 3 CRLF CR` -/
+def seg1 : Bytes := [80, 79, 83, 84, 32, 47, 97, 63, 113, 32, 72, 84, 84, 80, 47, 49, 46, 49, 13, 10, 67, 111, 110,
+  116, 101, 110, 116, 45, 76, 101, 110, 103, 116, 104, 58, 32, 51, 13, 10, 13]
+def evsEx : List PEv :=
+  [.sock .new, .sock (.feed seg1), .turn, .sock (.feed [10, 97]), .turn, .sock (.feed [98, 99, 88]), .turn, .turn]
+
+example : relayShape evsEx = true := by decide
+example : (C02.req envEx (clientStream evsEx)).isSome = true := by decide +kernel
+example : settled evsEx = true := by decide
+example : (C01.headOf (clientStream evsEx)).bind (fun h => (C01.expect envEx h).map fun f => hdrWfB f.headers)
+    = some true := by decide +kernel
+example : CR ∉ ({} : Cfg).peerIP ∧ (44 : UInt8) ∉ ({} : Cfg).peerIP := by decide
+/-- the predicate evaluated on the model's run (the theorem says this for every run) -/
+example : holds envEx {} evsEx (Proxy.run envEx {} evsEx).sock.log = true := by decide +kernel
+/-- and it is not true for trivial reasons: the upstream server received the head and `abc` -/
+example : (Http.parse (upstreamBytes (Proxy.run envEx {} evsEx).sock.log)).map (·.body) = some [97, 98, 99] := by
+  decide +kernel
+
+end run_examples
 
 end Qhttp.C12
